@@ -48,6 +48,30 @@ def call_set():
                 calls.append(("%s/%d/%d" % (name, oi, k), f))
     for di, d in enumerate(days):
         calls.append(("phase/%d" % di, lambda d=d: moon.phase(d)))
+    # near-duplicates: calls that differ from one another in exactly one argument — a memo whose
+    # key leaves that argument out answers the second with the first one's result, and which one
+    # is "first" depends on the order
+    same_place = [Observer(51.5, -0.12, 0.0), Observer(51.5, -0.12, 3000.0), Observer(51.5, -0.12, 35000.0),
+                  Observer(51.5, -0.12, (200.0, 500.0))]
+    d = days[0]
+    for oi, o in enumerate(same_place):
+        for wr in (True, False):
+            for el in (2.0, 10.0):
+                for dn, dr in (("R", SunDirection.RISING), ("S", SunDirection.SETTING)):
+                    calls.append(("tae2/%d/%s/%s/%s" % (oi, wr, el, dn),
+                                  lambda o=o, wr=wr, el=el, dr=dr: sun.time_at_elevation(o, el, d, dr, utc, wr)))
+        for dep in (6, 12, 18, 0, 3.5):
+            calls.append(("dawn2/%d/%s" % (oi, dep), lambda o=o, dep=dep: sun.dawn(o, d, dep, utc)))
+            calls.append(("dusk2/%d/%s" % (oi, dep), lambda o=o, dep=dep: sun.dusk(o, d, dep, tok)))
+            calls.append(("sun2/%d/%s" % (oi, dep), lambda o=o, dep=dep: sorted(sun.sun(o, d, dep, ldn).items())))
+        for name in ("sunrise", "sunset", "noon", "midnight", "daylight", "night"):
+            calls.append(("%s2/%d" % (name, oi), lambda o=o, name=name: getattr(sun, name)(o, d, tzinfo=ny)))
+        for dn, dr in (("R", SunDirection.RISING), ("S", SunDirection.SETTING)):
+            for name in ("twilight", "golden_hour", "blue_hour"):
+                calls.append(("%s2/%d/%s" % (name, oi, dn),
+                              lambda o=o, name=name, dr=dr: getattr(sun, name)(o, d, dr, utc)))
+        for daytime in (True, False):
+            calls.append(("rahu2/%d/%s" % (oi, daytime), lambda o=o, daytime=daytime: sun.rahukaalam(o, d, daytime, tok)))
     return calls
 
 
